@@ -238,7 +238,9 @@ func init() {
 		alwaysServed := map[string]bool{"/ex[a-z]+le\\.net/": true, "/h[o0]sts\\.test/": true, "||string.test^": true, "0.0.0.0 string-host.test": true}
 
 		var abort atomic.Bool
-		runCase := func(hist []int, k, kind int) (evals int64) {
+		var runCase2 func(hist []int, k, kind, k2, kind2 int) (evals int64)
+		runCase := func(hist []int, k, kind int) (evals int64) { return runCase2(hist, k, kind, -1, 0) }
+		runCase2 = func(hist []int, k, kind, k2, kind2 int) (evals int64) {
 			if abort.Load() {
 				return 0
 			}
@@ -253,9 +255,34 @@ func init() {
 				for _, h := range hist {
 					names = append(names, qs[h].String())
 				}
-				return map[string]any{"history": names, "fault_before_query": k, "fault": c19FaultKinds[kind]}
+				d := map[string]any{"history": names, "fault_before_query": k, "fault": c19FaultKinds[kind]}
+				if k2 >= 0 {
+					d["second_fault_before_query"], d["second_fault"] = k2, c19FaultKinds[kind2]
+				}
+				return d
 			}
-			replay := map[string]any{"history": hist, "k": k, "kind": kind}
+			replay := map[string]any{"history": hist, "k": k, "kind": kind, "k2": k2, "kind2": kind2}
+			applyFault := func(kind int) {
+				switch kind {
+				case 0:
+					_ = st.Close()
+				case 1:
+					fls[0].File = closedHandle(scen.PathFor(c19Lists[0].Text))
+				case 2:
+					fls[1].File = closedHandle(scen.PathFor(c19Lists[1].Text))
+				case 3:
+					fls[0].File = closedHandle(scen.PathFor(c19Lists[0].Text))
+					fls[1].File = closedHandle(scen.PathFor(c19Lists[1].Text))
+				case 4:
+					for _, fl := range fls {
+						f, err := os.Open(scen.PathFor(""))
+						if err != nil {
+							panic(HarnessError(err.Error()))
+						}
+						fl.File = f // closed by the deferred loop
+					}
+				}
+			}
 			var cachedAtFault map[string]bool
 			for i, h := range hist {
 				if i == k {
@@ -265,24 +292,21 @@ func init() {
 							cachedAtFault[t] = true
 						}
 					}
-					switch kind {
-					case 0:
-						_ = st.Close()
-					case 1:
-						fls[0].File = closedHandle(scen.PathFor(c19Lists[0].Text))
-					case 2:
-						fls[1].File = closedHandle(scen.PathFor(c19Lists[1].Text))
-					case 3:
-						fls[0].File = closedHandle(scen.PathFor(c19Lists[0].Text))
-						fls[1].File = closedHandle(scen.PathFor(c19Lists[1].Text))
-					case 4:
-						for _, fl := range fls {
-							f, err := os.Open(scen.PathFor(""))
-							if err != nil {
-								panic(HarnessError(err.Error()))
-							}
-							fl.File = f // closed by the deferred loop
+					if p := protect(func() { applyFault(kind) }); p != nil {
+						if strings.Contains(fmt.Sprint(p), "leaked lock") {
+							abort.Store(true)
 						}
+						c.Run.Violate(ev.Violation{Pred: "no-crash", Sig: map[string]any{"fault": c19FaultKinds[kind]}, What: fmt.Sprintf("injecting the fault panics: %v (%v)", p, desc()), Replay: replay})
+						return evals
+					}
+				}
+				if i == k2 {
+					if p := protect(func() { applyFault(kind2) }); p != nil {
+						if strings.Contains(fmt.Sprint(p), "leaked lock") {
+							abort.Store(true)
+						}
+						c.Run.Violate(ev.Violation{Pred: "no-crash", Sig: map[string]any{"fault": c19FaultKinds[kind], "second_fault": c19FaultKinds[kind2]}, What: fmt.Sprintf("injecting the second fault panics: %v (%v)", p, desc()), Replay: replay})
+						return evals
 					}
 				}
 				var got []string
@@ -338,12 +362,16 @@ func init() {
 			for _, v := range c.Replay["history"].([]any) {
 				hist = append(hist, int(v.(float64)))
 			}
-			runCase(hist, int(c.Replay["k"].(float64)), int(c.Replay["kind"].(float64)))
+			k2, kind2 := -1, 0
+			if v, ok := c.Replay["k2"].(float64); ok {
+				k2, kind2 = int(v), int(c.Replay["kind2"].(float64))
+			}
+			runCase2(hist, int(c.Replay["k"].(float64)), int(c.Replay["kind"].(float64)), k2, kind2)
 			return
 		}
-		n := 3
+		n, doubleFaultLen := 3, 2
 		if c.Thorough() {
-			n = 4
+			n, doubleFaultLen = 4, 3
 		}
 		var hists [][]int
 		enum.SequencesUpTo(len(qs), n, func(s []int) bool {
@@ -367,6 +395,15 @@ func init() {
 				for kind := range c19FaultKinds {
 					e += runCase(hists[i], k, kind)
 					cs++
+					// a second fault at or after the first one (short histories only)
+					if len(hists[i]) <= doubleFaultLen {
+						for k2 := k; k2 < len(hists[i]); k2++ {
+							for kind2 := range c19FaultKinds {
+								e += runCase2(hists[i], k, kind, k2, kind2)
+								cs++
+							}
+						}
+					}
 				}
 			}
 			mu.Lock()
@@ -388,7 +425,7 @@ func init() {
 		c.Run.Set("fault_cases", cases)
 		c.Run.Set("evaluations", evals)
 		c.Run.Set("distinct_nontrivial", cases)
-		c.Run.Set("rule", fmt.Sprintf("every query history of length 1..%d over %d queries (network/DNS/engine, each hitting a different table or list; two file-backed lists and one string list) x every fault point 0..n x 5 fault kinds (Close, either or both file handles replaced by closed descriptors, both replaced by handles of an empty file); every case is distinct; each query after the fault: no panic, every returned rule truly matches, result subset of the rules that individually match (the fault-free result plus what precedence hid), rules in memory at fault time (cache keys, sequential-table rules, string-backed rules) still served", n, len(qs)))
+		c.Run.Set("rule", fmt.Sprintf("every query history of length 1..%d over %d queries (network/DNS/engine, each hitting a different table or list; two file-backed lists and one string list) x every fault point 0..n x 5 fault kinds (Close, either or both file handles replaced by closed descriptors, both replaced by handles of an empty file), for histories of at most %d queries also followed by every second fault at or after the first; every case is distinct; each query after the fault: no panic, every returned rule truly matches, result subset of the rules that individually match (the fault-free result plus what precedence hid), rules in memory at fault time (cache keys, sequential-table rules, string-backed rules) still served", n, len(qs), doubleFaultLen))
 		c.Run.Set("exhaustive", exhaustive)
 		c.Run.Assumption("fault kinds are those reachable through the public API (RuleStorage.Close, exported FileRuleList.File); read errors in the middle of a line are not injected")
 	})
